@@ -404,6 +404,9 @@ type nodePair struct {
 
 func newTree(prof *profile.Profile, o *Options) (g *Graph) {
 	parentNodeMap := make(map[*Node]NodeMap, len(prof.Sample))
+	// The per-node maps in the order they are created: nodes of a tree may
+	// have the same Info, so their order must not come from map iteration.
+	var nodeMaps []NodeMap
 	for _, sample := range prof.Sample {
 		var w, dw int64
 		w = o.SampleValue(sample.Value)
@@ -427,6 +430,7 @@ func newTree(prof *profile.Profile, o *Options) (g *Graph) {
 				if nodeMap == nil {
 					nodeMap = make(NodeMap)
 					parentNodeMap[parent] = nodeMap
+					nodeMaps = append(nodeMaps, nodeMap)
 				}
 				n := nodeMap.findOrInsertLine(l, lines[lidx], o)
 				if n == nil {
@@ -445,8 +449,10 @@ func newTree(prof *profile.Profile, o *Options) (g *Graph) {
 	}
 
 	nodes := make(Nodes, 0, len(prof.Location))
-	for _, nm := range parentNodeMap {
-		nodes = append(nodes, nm.nodes()...)
+	for _, nm := range nodeMaps {
+		ns := nm.nodes()
+		sort.Slice(ns, func(i, j int) bool { return compareNodes(ns[i], ns[j]) })
+		nodes = append(nodes, ns...)
 	}
 	return selectNodesForGraph(nodes, o.DropNegative)
 }
